@@ -22,7 +22,9 @@ def gen_obligation(e):
     name = p['name']
     if not e['compiled']:
         return None, e['why']
-    if not engine.modelled_C(p):
+    # the statement is about the protocol's own checks as a function of the fields the base decoder hands over: it needs an engine model
+    # (tied by correspondence in C08) only for the provenance of those fields - any of the six engine models will do
+    if not (engine.modelled_C(p) or engine.modelled_MD(p) or engine.modelled_HT(p) or engine.modelled_MT(p) or engine.modelled_B(p)):
         return None, 'engine class %s%s not in the proved fragment' % (p['eclass'], ' with middle timings' if p['middle'] else '')
     if m['status'].get('encode') != 'ok' or m['status'].get('decode') != 'ok':
         return None, m['status'].get('encode') if m['status'].get('encode') != 'ok' else m['status'].get('decode')
@@ -309,13 +311,27 @@ def run(ctx):
     import protocorr
     modelled = [info[n]['p'] for n in results if results[n]['status'] == 'proved']
     items = []
+    xitems = {}
     for p in modelled:
         for a in gen_inputs.param_assignments(p, ctx.rng, 2 if ctx.tier == 'quick' else 16):
             c, e = engine.fresh_encode(p, a)
             if c is None:
                 continue
             for kind, pos, g in corruptions(p, list(c.normalized_rlc[0]), ctx.rng, 2)[:5]:
-                items.append((p, g, 20, False, kind))
+                if engine.modelled_C(p):
+                    items.append((p, g, 20, False, kind))
+                else:
+                    cls = 'MD' if engine.modelled_MD(p) else 'HT' if engine.modelled_HT(p) else 'MT' if engine.modelled_MT(p) else 'B'
+                    xitems.setdefault(cls, []).append((p, g, 20, kind))
+    for cls, its in sorted(xitems.items()):
+        fn = dict(MD=engine.corr_parseMD, HT=engine.corr_parseHT, MT=engine.corr_parseMT, B=engine.corr_parseB)[cls]
+        mb = fn(ctx, its, name='corr_parse%s' % cls)
+        if mb is None:
+            ctx.report('correspondence', 'model-eval-failed', {}, dict(theorem='PyIR.Engine.Parse%s evaluation' % cls), found_input=False)
+            mb = []
+        for (p, code, tol, tag), impl, model in mb:
+            ctx.report(p['name'], 'parse-model-disagrees', dict(tag=tag),
+                       dict(protocol=p['name'], frame=code, tolerance=tol, impl=impl[:60], model=model[:60]))
     bad = engine.corr_parseH(ctx, items)
     if bad is None:
         ctx.report('correspondence', 'model-eval-failed', {}, dict(theorem='PyIR.Engine.Parse evaluation'), found_input=False)
